@@ -1315,7 +1315,9 @@ func (w *responseWriter) close() {
 		w.WriteHeader(http.StatusOK)
 	}
 	if w.w != nil {
-		_, _ = w.w.Write(nil) // trigger any final writes
+		if w.err == nil {
+			_, _ = w.w.Write(nil) // trigger any final writes
+		}
 		_ = w.w.Close()
 	}
 	if w.endWritten {
@@ -1699,8 +1701,13 @@ func (w *transformingWriter) Write(data []byte) (n int, err error) {
 
 func (w *transformingWriter) Close() error {
 	if w.expectingBytes == -1 {
-		if err := w.flushMessage(); err != nil {
-			w.rw.reportError(err)
+		// If the response has already ended (an error was reported), whatever
+		// was buffered is dropped: the hold-back buffer behind w.w has been
+		// returned to the pool by then and must not be written to.
+		if w.rw.err == nil {
+			if err := w.flushMessage(); err != nil {
+				w.rw.reportError(err)
+			}
 		}
 	} else if w.buffer != nil && (w.buffer.Len() > 0 || (!w.writingEnvelope && w.expectingBytes > 0)) {
 		// Unfinished body! That includes a message whose envelope was
